@@ -93,8 +93,10 @@ impl Prop for C09 {
     for (path, text) in corpus::mec_files(if tier == Tier::Quick { 6 * 1024 } else { 64 * 1024 }) {
       let lines: Vec<usize> = text.char_indices().filter(|(_, c)| *c == '\n').map(|(i, _)| i + 1).collect();
       let mut rng = Rng::keyed(seed, &format!("c09file{}", path));
-      let mut cuts: Vec<usize> = if tier == Tier::Quick { let mut l = lines.clone(); rng.shuffle(&mut l); l.truncate(6); l } else { lines.clone() };
-      for _ in 0..(if tier == Tier::Quick { 3 } else { 40 }) { let mut c = rng.below(text.len() as u64 + 1) as usize; while !text.is_char_boundary(c) { c -= 1; } cuts.push(c); }
+      // parse cost grows faster than linearly with document size: all line prefixes only for small documents, a sample otherwise
+      let (nl, nr) = if tier == Tier::Quick { (6, 3) } else if text.len() <= 4 * 1024 { (usize::MAX, 40) } else if text.len() <= 16 * 1024 { (60, 20) } else { (6, 4) };
+      let mut cuts: Vec<usize> = { let mut l = lines.clone(); if l.len() > nl { rng.shuffle(&mut l); l.truncate(nl); } l };
+      for _ in 0..nr { let mut c = rng.below(text.len() as u64 + 1) as usize; while !text.is_char_boundary(c) { c -= 1; } cuts.push(c); }
       cuts.push(text.len());
       cuts.sort(); cuts.dedup();
       for c in cuts { out.push(Case { id: format!("file;path={};cut={}", path, c), cell: "document-prefix".into(), input: json!({"text": &text[..c]}) }); }
